@@ -1045,7 +1045,7 @@ def run(ctx):
     ctx.notes.append('non-mutation, read-only tolerance and determinism are ORACLE-ONLY clauses: observed on the inputs of this run, not proved')
     ctx.notes.append('energy_stop/_energy_difference read uninitialised memory when an energy is exactly zero (np.log10(where=) without out); the '
                      'stale value is reproducible call-to-call, so the determinism clause cannot exhibit it; see notes/fixes/C19-energy-difference-uninitialised')
-    ctx.proof(extra=['props/Prop_Tie_Support.v'])  # translation tie: program regenerated from the source + refinement theorems
+    ctx.proof(extra=['props/Prop_Tie_Support.v', 'props/Prop_Tie_Wave.v'])  # translation tie: program regenerated from the source + refinement theorems
     # ---- correspondence
     bad = run_ensure_correspondence(ctx)
     bad2 = run_validate_correspondence(ctx)
